@@ -207,3 +207,10 @@ W void w_hist_pad_fail(int32_t a, int32_t x, unsigned p, unsigned failAt, Hist* 
   arena.failmask = failAt ? (1u << (arena.calls + failAt - 1)) : 0;
   bool ok = doc[p + 1].set(x); h->ok_mask = ok; h->calls_after = arena.calls; observe_arr(doc, h); }
 }
+// ---- replacing a raw (serialized) value or a copied string releases its string node at once (C06/C14/C19)
+W void w_raw_release(const char* p, int32_t x, unsigned kind, Hist* h) {
+  arena.reset(); { JsonDocument doc(&arena);
+  bool ok = kind == 0 ? doc.set(serialized(p, 2)) : doc.set(JsonString(p, 2, JsonString::Copied)); h->ok_mask = ok;
+  h->calls_before = arena.n_free; doc.set(x); h->frees = arena.n_free; h->calls_after = arena.calls; h->size = doc.is<int32_t>(); h->e[0] = doc.as<int32_t>(); }
+  h->n = arena.n_free;
+}
